@@ -143,8 +143,8 @@ Section Keys.
     - exists o1. rewrite set_nth_other by exact Hne. split; auto using kcell_refl.
   Qed.
 
-  (* ---------- stable facts ---------- *)
-  Definition stable (F : state -> Prop) : Prop := forall s s', kext s s' -> F s -> F s'.
+  (* ---------- kstable facts ---------- *)
+  Definition kstable (F : state -> Prop) : Prop := forall s s', kext s s' -> F s -> F s'.
 
   Definition isinst (l : loc) (c : cid) (s : state) : Prop := exists d, nth_error (heap s) l = Some (OInst c d).
   Definition noninst (l : loc) (s : state) : Prop :=
@@ -152,24 +152,24 @@ Section Keys.
   Definition has (l : loc) (c : cid) (a : aid) (s : state) : Prop :=
     exists d, nth_error (heap s) l = Some (OInst c d) /\ assoc a d <> None.
 
-  Lemma isinst_stable l c : stable (isinst l c).
+  Lemma isinst_stable l c : kstable (isinst l c).
   Proof. intros s s' E [d H]. destruct (E l _ H) as [o' [H' [d' [-> _]]]]. exists d'. exact H'. Qed.
-  Lemma noninst_stable l : stable (noninst l).
+  Lemma noninst_stable l : kstable (noninst l).
   Proof.
     intros s s' E [o [H N]]. destruct (E l _ H) as [o' [H' K]]. exists o'. split; auto.
     destruct o; try contradiction; exact K.
   Qed.
-  Lemma has_stable l c a : keep c a -> stable (has l c a).
+  Lemma has_stable l c a : keep c a -> kstable (has l c a).
   Proof.
     intros Hk s s' E [d [H Ha]]. destruct (E l _ H) as [o' [H' [d' [-> K]]]]. exists d'. split; auto.
   Qed.
-  Lemma stable_and (F G : state -> Prop) : stable F -> stable G -> stable (fun s => F s /\ G s).
+  Lemma stable_and (F G : state -> Prop) : kstable F -> kstable G -> kstable (fun s => F s /\ G s).
   Proof. intros HF HG s s' E [A B]. split; eauto. Qed.
-  Lemma stable_const (P : Prop) : stable (fun _ => P).
+  Lemma stable_const (P : Prop) : kstable (fun _ => P).
   Proof. intros s s' _ H; exact H. Qed.
-  Lemma stable_forall {T} (F : T -> state -> Prop) : (forall x, stable (F x)) -> stable (fun s => forall x, F x s).
+  Lemma stable_forall {T} (F : T -> state -> Prop) : (forall x, kstable (F x)) -> kstable (fun s => forall x, F x s).
   Proof. intros H s s' E A x. eapply H; eauto. Qed.
-  Lemma stable_impl (P : Prop) (F : state -> Prop) : stable F -> stable (fun s => P -> F s).
+  Lemma stable_impl (P : Prop) (F : state -> Prop) : kstable F -> kstable (fun s => P -> F s).
   Proof. intros H s s' E A p. eapply H; eauto. Qed.
 
   (* ---------- the judgements ---------- *)
@@ -179,7 +179,7 @@ Section Keys.
     forall s, kext s (snd (m s)) /\ match fst (m s) with Ok a => Q a | Err _ => True end.
   Definition kp {T} (m : M T) : Prop := kv m (fun _ => True).
 
-  Lemma kj_of_kv {T} (m : M T) Q (F : state -> Prop) : kv m Q -> stable F -> kj F m (fun a s => Q a /\ F s).
+  Lemma kj_of_kv {T} (m : M T) Q (F : state -> Prop) : kv m Q -> kstable F -> kj F m (fun a s => Q a /\ F s).
   Proof.
     intros H St s Fs. destruct (H s) as [E Qa]. split; auto. destruct (fst (m s)); auto. split; eauto.
   Qed.
@@ -224,7 +224,7 @@ Section Keys.
     kj P m Q -> (forall a s, Q a s -> Q' a s) -> kj P m Q'.
   Proof. intros H HQ. eapply kj_conseq; eauto. Qed.
   Lemma kj_frame {T} (F P : state -> Prop) (m : M T) Q :
-    stable F -> kj P m Q -> kj (fun s => P s /\ F s) m (fun a s => Q a s /\ F s).
+    kstable F -> kj P m Q -> kj (fun s => P s /\ F s) m (fun a s => Q a s /\ F s).
   Proof.
     intros St H s [Ps Fs]. destruct (H s Ps) as [E Qa]. split; auto. destruct (fst (m s)); auto. split; eauto.
   Qed.
@@ -232,13 +232,13 @@ Section Keys.
   Proof. intros H s [Hp Ps]. apply H; auto. Qed.
   Lemma kj_kext {T} (P : state -> Prop) (m : M T) Q s : kj P m Q -> P s -> kext s (snd (m s)).
   Proof. intros H Ps. apply (H s Ps). Qed.
-  Lemma kj_of_kp {T} (m : M T) (F : state -> Prop) : kp m -> stable F -> kj F m (fun _ s => F s).
+  Lemma kj_of_kp {T} (m : M T) (F : state -> Prop) : kp m -> kstable F -> kj F m (fun _ s => F s).
   Proof. intros H St. eapply kj_post; [eapply kj_of_kv; eauto|]. intros a s [_ Fs]; exact Fs. Qed.
 
   (* ---------- primitives ---------- *)
   Lemma kv_alloc o : kp (alloc o).
   Proof. intros s. unfold alloc. simpl. split; auto using kext_alloc. Qed.
-  Lemma kj_alloc (P : state -> Prop) o : stable P -> kj P (alloc o) (fun l s => P s /\ nth_error (heap s) l = Some o).
+  Lemma kj_alloc (P : state -> Prop) o : kstable P -> kj P (alloc o) (fun l s => P s /\ nth_error (heap s) l = Some o).
   Proof.
     intros St s Ps. unfold alloc. simpl. split; [apply kext_alloc|]. split.
     - eapply St; [apply kext_alloc|exact Ps].
@@ -277,7 +277,7 @@ Section Keys.
     - split; auto. eapply kext_trans; eauto.
   Qed.
   Lemma kj_finally {T} (P : state -> Prop) (m : M T) (c : M unit) (Q : T -> state -> Prop) (F : state -> Prop) :
-    stable F -> kj P m (fun a s => Q a s /\ F s) -> (forall s, P s -> F s) ->
+    kstable F -> kj P m (fun a s => Q a s /\ F s) -> (forall s, P s -> F s) ->
     (forall a, kj (fun s => Q a s /\ F s) c (fun _ s => Q a s)) -> kp c ->
     kj P (finally_ m c) Q.
   Proof.
@@ -577,7 +577,7 @@ Section Core.
   (* instance l of class c holds every defaulted init-enabled attribute in its own dictionary *)
   Definition hd (l : loc) (c : cid) (s : state) : Prop :=
     isinst l c s /\ forall a, keep_init c a -> has l c a s.
-  Lemma hd_stable l c : stable ct (hd l c).
+  Lemma hd_stable l c : kstable ct (hd l c).
   Proof.
     intros s s' E [I H]. split; [eapply isinst_stable; eauto|].
     intros a K. eapply has_stable; [apply keep_init_keep; exact K|exact E|apply H; exact K].
@@ -1170,7 +1170,7 @@ Section Core.
   Proof. unfold init_. kgo. Qed.
 
   (* InitMethod.init after the classes have been looked up (same text as in Model.init_) *)
-  Definition init_tail (spec_cls : cid) (self : loc) (ks im : cls) (top : bool) (kw0 : list (aid * val)) : M val :=
+  Definition kinit_tail (spec_cls : cid) (self : loc) (ks im : cls) (top : bool) (kw0 : list (aid * val)) : M val :=
     kw1 <- (if top then
               raw_setattr self A_INITIALIZING (VBool true) ;;;
               foldM (fun kw parent =>
@@ -1218,19 +1218,19 @@ Section Core.
      else ret tt) ;;;
     ret VNone.
 
-  Lemma init_unfold spec_cls self kw0 :
+  Lemma kinit_unfold spec_cls self kw0 :
     init_ ct rec spec_cls self kw0 =
     (ks <- cls_of ct spec_cls ;;
      if negb (init_wrapper_ok ks kw0) then fail TypeErr else
      p <- read_inst self ;; im <- cls_of ct (fst p) ;;
-     init_tail spec_cls self ks im (c_owner im =? spec_cls) kw0).
+     kinit_tail spec_cls self ks im (c_owner im =? spec_cls) kw0).
   Proof. reflexivity. Qed.
 
   (* the defaulted init-enabled attributes owned by one of `owners` are in the dictionary of self *)
   Definition HP (self : loc) (c : cid) (k : cls) (owners : cid -> Prop) (s : state) : Prop :=
     forall a sp, lookup_attr k a = Some sp -> a <> A_INITIALIZING -> a_init sp = true ->
                  has_default k sp = true -> owners (a_owner sp) -> has self c a s.
-  Lemma HP_stable self c k owners : lookup_cls ct c = Some k -> stable ct (HP self c k owners).
+  Lemma HP_stable self c k owners : lookup_cls ct c = Some k -> kstable ct (HP self c k owners).
   Proof.
     intros Hk s s' E H a sp H1 H2 H3 H4 H5. eapply has_stable; [|exact E|eapply H; eauto].
     split; auto. exists k, sp. auto.
@@ -1262,7 +1262,7 @@ Section Core.
     Let HP1 := HP self c im (fun o => top = true /\ In o (tl (c_mro ks))).
     Let F1 := fun s => isinst self c s /\ HP1 s.
 
-    Lemma F1_stable : stable ct F1.
+    Lemma F1_stable : kstable ct F1.
     Proof. apply stable_and; [apply isinst_stable|apply HP_stable; exact Him]. Qed.
 
     Lemma phase1_kj :
@@ -1306,7 +1306,7 @@ Section Core.
       eapply kj_conseq; [apply (kj_foldM ct _ Inv) with (done := [])| |].
       - (* one parent *)
         intros done kw parent.
-        assert (StF : stable ct (fun s => isinst self c s /\ HP self c im (fun o => In o done) s)).
+        assert (StF : kstable ct (fun s => isinst self c s /\ HP self c im (fun o => In o done) s)).
         { apply stable_and; [apply isinst_stable|apply HP_stable; exact Him]. }
         apply kj_pre with (P := fun s => kw_nu kw /\ (isinst self c s /\ HP self c im (fun o => In o done) s)).
         2:{ intros s (A & B & C). auto. }
@@ -1351,7 +1351,7 @@ Section Core.
       F1 s /\ forall sp, In sp done -> lookup_attr im (a_name sp) = Some sp -> a_name sp <> A_INITIALIZING ->
                          a_init sp = true -> a_owner sp = spec_cls -> has_default im sp = true ->
                          has self c (a_name sp) s.
-    Lemma Inv2_stable done : stable ct (Inv2 done).
+    Lemma Inv2_stable done : kstable ct (Inv2 done).
     Proof.
       apply stable_and; [apply F1_stable|]. intros s s' E H sp H0 H1 H2 H3 H4 H5.
       eapply has_stable; [|exact E|eapply H; eauto]. split; auto. exists im, sp. auto.
@@ -1434,10 +1434,10 @@ Section Core.
     Qed.
 
     Lemma init_tail_kj :
-      KJ (isinst self c) (init_tail spec_cls self ks im top kw0)
+      KJ (isinst self c) (kinit_tail spec_cls self ks im top kw0)
          (fun _ s => HP self c im (fun o => o = spec_cls \/ (c = spec_cls /\ In o (tl (c_mro im)))) s).
     Proof.
-      unfold init_tail. eapply kj_bind; [apply phase1_kj|]. intros kw1.
+      unfold kinit_tail. eapply kj_bind; [apply phase1_kj|]. intros kw1.
       apply kj_pure. intro Hkw1.
       eapply kj_bind; [apply phase2_kj; exact Hkw1|]. intros ?.
       eapply kj_bind with (Q := fun _ s => Inv2 (c_attrs im) s).
@@ -1460,7 +1460,7 @@ Section Core.
           (a_owner sp = spec_cls \/ (c = spec_cls /\ In (a_owner sp) (tl (c_mro k)))) -> has self c a s).
     2:{ intros r s H. simpl. intros Hg Hkw. apply H. auto. }
     apply kj_assume; [|apply kp_init]. intros [Hg Hkw].
-    rewrite init_unfold.
+    rewrite kinit_unfold.
     eapply kj_bind; [apply kj_cls_of|]. intros ks.
     destruct (negb (init_wrapper_ok ks kw0)); [apply kj_fail|].
     eapply kj_bind; [apply kj_read_inst|]. intros p.
@@ -1526,4 +1526,224 @@ Proof.
   induction fuel as [|f IH]; intros k Hk.
   - simpl. apply kj_fail.
   - change (exec ct (S f) k) with (body ct (exec ct f) k). apply body_kj; auto.
+Qed.
+
+(* ------------------------------------------------------------------ *)
+(** * The public operations *)
+Section Ops.
+  Variable ct : ctable.
+  Notation rec := (exec ct XFUEL).
+  Local Notation KP := (kp ct).
+  Local Notation KJ := (kj ct).
+  Let Hrec := exec_kj ct XFUEL.
+  Local Opaque exec XFUEL.
+
+  Local Hint Resolve (kp_loc_of ct) (kp_loc_of_t ct) (kp_read_inst ct) (kp_cls_of ct) (kp_getattr_default ct)
+    (kp_raw_setattr ct) (kp_invalidate_attrs ct rec Hrec) (kp_mutate_attr ct rec Hrec)
+    (kp_lookup_default_value ct rec Hrec) (kp_instantiate_ty ct rec Hrec) (kp_rec_construct ct rec Hrec)
+    (kp_prepare_item ct rec Hrec) (kp_rec_setattr ct rec Hrec) (kp_read_list ct) (kp_read_dict ct) (kp_read_set ct)
+    (kp_seq_extractor ct) (kp_map_extractor ct) (kp_set_extractor ct) (kp_create_collection ct rec Hrec)
+    (kp_rec_mv ct rec Hrec) (kp_prepare_attr_value ct rec Hrec) (kp_mutate_collection ct rec Hrec)
+    (kp_rec_init ct rec Hrec) (kp_set_discard ct) : kp.
+
+  Lemma kp_rec_del l a skip : KP (rec (KDelAttr l a false skip)).
+  Proof. apply (rec_kp ct rec Hrec). reflexivity. Qed.
+  Local Hint Resolve kp_rec_del : kp.
+
+  Lemma kp_spec_for l a : KP (spec_for ct l a).
+  Proof. unfold spec_for. kgo. Qed.
+  Lemma kp_mk_mutator sp l inplace : KP (mk_mutator ct sp l inplace).
+  Proof. unfold mk_mutator. kgo. Qed.
+  Lemma kp_current_value l sp inplace used : KP (current_value ct l sp inplace used).
+  Proof. unfold current_value. kgo. Qed.
+  Lemma kp_with_attr l sp new attrs inplace : KP (with_attr ct l sp new attrs inplace).
+  Proof. unfold with_attr. kgo. Qed.
+  Local Hint Resolve kp_spec_for kp_mk_mutator kp_current_value kp_with_attr : kp.
+
+  Lemma kp_thawed' {T} l thaw (m : M T) : KP m -> KP (thawed ct l thaw m).
+  Proof. apply kp_thawed. Qed.
+
+  (* removal from the collection object just read *)
+  Lemma kp_without_tail (sp : attr_spec) (c : val) (h : hargs) :
+    KP (match family_of (a_ty sp) with
+         | Some FSeq =>
+             ex <- seq_extractor ct sp c (pos0 h) true (tri_of (h_by_index h)) ;;
+             (match fst ex with
+              | VNone => ret tt
+              | VInt _ | VBool _ =>
+                  let i := match fst ex with VInt z => z | VBool true => 1%Z | _ => 0%Z end in
+                  p <- read_list c ;;
+                  match norm_index (zlen (snd p)) i with
+                  | Some n => write (fst p) (OList (remove_at n (snd p)))
+                  | None => fail IndexErr end
+              | _ => fail TypeErr end)
+         | Some FMap =>
+             ex <- map_extractor ct c (pos0 h) true ;;
+             p <- read_dict c ;;
+             h' <- get_heap ;;
+             write (fst p) (ODict (filter (fun q => negb (val_eqb FUEL ct h' (fst q) (fst ex))) (snd p)))
+         | Some FSet =>
+             ex <- set_extractor ct c (pos0 h) true ;;
+             p <- read_set c ;;
+             xs <- set_discard ct (snd p) (fst ex) ;;
+             write (fst p) (OSet xs)
+         | None => fail AttrErr end).
+  Proof.
+    destruct (family_of (a_ty sp)) as [[| |]|]; [| | |apply kv_fail].
+    - apply kp_bind; [apply kp_seq_extractor|]. intros ex.
+      destruct (fst ex); try apply kv_fail; try (apply kv_ret; exact I); cbv zeta.
+      + eapply kp_of_kj. eapply kj_bind; [apply kj_read_list|]. intros p.
+        destruct (norm_index _ _); [apply kj_write_list|apply kj_fail].
+      + eapply kp_of_kj. eapply kj_bind; [apply kj_read_list|]. intros p.
+        destruct (norm_index _ _); [apply kj_write_list|apply kj_fail].
+    - apply kp_bind; [apply kp_map_extractor|]. intros ex.
+      eapply kp_of_kj. eapply kj_bind; [apply kj_read_dict|]. intros p.
+      apply kj_rdr_bind; [apply rdr_get_heap|]. intros h'.
+      eapply kj_conseq; [apply kj_write with (o0 := ODict (snd p)); exact I|intros s [_ H]; exact H|intros; exact I].
+    - apply kp_bind; [apply kp_set_extractor|]. intros ex.
+      eapply kp_of_kj. eapply kj_bind; [apply kj_read_set|]. intros p.
+      apply kj_rdr_bind; [apply rdr_set_discard|]. intros xs.
+      eapply kj_conseq; [apply kj_write with (o0 := OSet (snd p)); exact I|intros s [_ H]; exact H|intros; exact I].
+  Qed.
+
+  Theorem run_helper_kp l hp h : KP (run_helper ct l hp h).
+  Proof.
+    unfold run_helper. destruct (negb (h_if h)); [apply kv_ret; exact I|].
+    destruct hp.
+    - kgo.
+    - destruct (pos0 h); kgo.
+    - kgo.
+    - apply kp_bind; [kgo|]. intros l'. apply kp_bind; [|intros; kgo]. apply kp_thawed. kgo.
+    - kgo.
+    - kgo.
+    - kgo.
+    - apply kp_bind; [kgo|]. intros r. cbv zeta. apply kp_bind; [kgo|]. intros c0.
+      apply kp_bind; [kgo|]. intros c. apply kp_bind; [apply kp_without_tail|]. intros _. kgo.
+    - kgo.
+    - kgo.
+    - apply kp_bind; [kgo|]. intros l'. apply kp_bind; [kgo|]. intros p. apply kp_bind; [kgo|]. intros k.
+      apply kp_bind; [|intros; kgo]. apply kp_thawed. apply kv_iterM. intros sp _.
+      apply kv_catch; kgo.
+  Qed.
+
+  (* every operation of `step`, whatever its arguments and outcome: no instance loses a defaulted attribute *)
+  Theorem step_kext roots o s : kext ct s (snd (step ct roots o s)).
+  Proof.
+    assert (H : KP (step ct roots o)).
+    { destruct o; simpl.
+      - kgo.
+      - kgo.
+      - kgo.
+      - apply kp_bind; [kgo|]. intros l. apply run_helper_kp.
+      - kgo.
+      - kgo. }
+    apply (H s).
+  Qed.
+
+  (* a successful constructor call returns an instance holding every defaulted init-enabled attribute *)
+  Theorem construct_holds c pos kw s r s' :
+    tgb ct = true -> kw_nu kw -> match pos with Some v => nu v | None => True end ->
+    exec ct XFUEL (KConstruct c pos kw) s = (Ok r, s') ->
+    exists l, r = VRef l /\ hd ct l c s'.
+  Proof.
+    intros Hg Hkw Hpos Hrun. destruct (Hrec (KConstruct c pos kw) I s I) as [_ Q].
+    rewrite Hrun in Q. simpl in Q. destruct Q as [l [-> H]]. exists l. split; auto.
+  Qed.
+End Ops.
+
+(* ------------------------------------------------------------------ *)
+(** * Histories *)
+From SC Require Import Inst.SepProofs.
+
+Definition op_nu (o : op) : Prop :=
+  match o with
+  | OpConstruct _ pos kw => kw_nu kw /\ match pos with Some v => nu v | None => True end
+  | _ => True
+  end.
+
+Section History.
+  Variable ct : ctable.
+
+  Lemma run_ops_kext ops : forall s roots, kext ct s (fst (run_ops ct s roots ops)).
+  Proof.
+    induction ops as [|[o fa] t IH]; intros s roots; simpl; [apply kext_refl|].
+    destruct (step ct roots o (mkst (heap s) 0 fa)) as [r s'] eqn:E.
+    eapply kext_trans; [|apply IH]. eapply kext_trans; [apply (kext_heap ct s (mkst (heap s) 0 fa)); reflexivity|].
+    pose proof (step_kext ct roots o (mkst (heap s) 0 fa)) as K. rewrite E in K. exact K.
+  Qed.
+
+  Lemma run_ops_roots ops : forall s roots x, x < length roots ->
+    nth x (snd (run_ops ct s roots ops)) VNone = nth x roots VNone.
+  Proof.
+    induction ops as [|[o fa] t IH]; intros s roots x Hx; simpl; [reflexivity|].
+    destruct (step ct roots o (mkst (heap s) 0 fa)) as [r s'].
+    rewrite IH by (rewrite app_length; simpl; lia). apply app_nth1. exact Hx.
+  Qed.
+
+  (* over any history whatsoever (any operations, any arguments, failing steps included): a root
+     produced by a constructor call holds every defaulted init-enabled attribute of its class in its
+     own dictionary, at the end of the history *)
+  Theorem ctor_roots_hold_defaults :
+    tgb ct = true ->
+    forall ops s roots, Forall (fun p => op_nu (fst p)) ops ->
+    forall i c pos kw fa l,
+      nth_error ops i = Some (OpConstruct c pos kw, fa) ->
+      nth (length roots + i) (snd (run_ops ct s roots ops)) VNone = VRef l ->
+      hd ct l c (fst (run_ops ct s roots ops)).
+  Proof.
+    intros Hg. induction ops as [|[o fa0] t IH]; intros s roots Hall i c pos kw fa l Hn Hr.
+    { destruct i; discriminate. }
+    inversion Hall as [|? ? Ho Ht]; subst. simpl in Ho.
+    simpl in Hr |- *. destruct (step ct roots o (mkst (heap s) 0 fa0)) as [r s'] eqn:E.
+    destruct i as [|i].
+    - simpl in Hn. inversion Hn; subst o fa0. clear Hn.
+      rewrite Nat.add_0_r in Hr. rewrite run_ops_roots in Hr by (rewrite app_length; simpl; lia).
+      rewrite app_nth2 in Hr by lia. rewrite Nat.sub_diag in Hr. simpl in Hr.
+      destruct r as [v|e]; [|discriminate]. subst v.
+      simpl in E. destruct Ho as [Hkw Hpos].
+      destruct (construct_holds ct c pos kw _ _ _ Hg Hkw Hpos E) as [l' [El H]]. inversion El; subst l'.
+      eapply hd_stable; [apply run_ops_kext|exact H].
+    - simpl in Hn. apply (IH s' _ Ht i c pos kw fa l Hn).
+      rewrite app_length. simpl. rewrite <- Hr. f_equal. lia.
+  Qed.
+End History.
+
+(* ------------------------------------------------------------------ *)
+(** * The guard "no keyword is UNCHANGED" is necessary *)
+(* class 2: xs : List[int] = [1] (the class-level default object is cell 0) *)
+Definition exu_ct : ctable :=
+  [mkcls 2 [mkattr 50 (TList TInt) (VRef 0) None 2 true false None None []]
+         false false None [2] 2 [] None None].
+Definition exu_s0 : state := mkst [OList [VInt 1]] 0 None.
+
+(* C(xs=UNCHANGED) returns an instance WITHOUT xs in its dictionary (getattr falls back to the
+   class attribute); with_x(5, _inplace=True) on it then writes the class-level default object
+   itself (cell 0), which every later C() copies.  Reproduced on /repo. *)
+Example unchanged_keyword_refuted :
+  tgb exu_ct = true /\
+  keep_init exu_ct 2 50 /\
+  (let '(r, s1) := exec exu_ct XFUEL (KConstruct 2 None [(50, VUnchanged)]) exu_s0 in
+   r = Ok (VRef 1) /\ nth_error (heap s1) 1 = Some (OInst 2 []) /\
+   let '(r2, s2) := step exu_ct [VRef 0; VRef 1]
+                         (OpHelper 1 (HWithItem 50) (mkh [VInt 5] true true VMissing false None None [] None)) s1 in
+   r2 = Ok (VRef 1) /\ nth_error (heap s2) 0 = Some (OList [VInt 1; VInt 5])).
+Proof.
+  split; [reflexivity|]. split.
+  - split; [discriminate|]. eexists. eexists. repeat split; reflexivity.
+  - vm_compute. repeat split; reflexivity.
+Qed.
+
+(* without UNCHANGED the same class gets its own copy (cell 2) and the class-level object is left alone *)
+Example construct_holds_nonvacuous :
+  tgb exu_ct = true /\ keep_init exu_ct 2 50 /\
+  (let '(r, s1) := exec exu_ct XFUEL (KConstruct 2 None []) exu_s0 in
+   r = Ok (VRef 1) /\ nth_error (heap s1) 1 = Some (OInst 2 [(50, VRef 2)]) /\
+   let '(r2, s2) := step exu_ct [VRef 0; VRef 1]
+                         (OpHelper 1 (HWithItem 50) (mkh [VInt 5] true true VMissing false None None [] None)) s1 in
+   r2 = Ok (VRef 1) /\ nth_error (heap s2) 0 = Some (OList [VInt 1]) /\
+   nth_error (heap s2) 2 = Some (OList [VInt 1; VInt 5])).
+Proof.
+  split; [reflexivity|]. split.
+  - split; [discriminate|]. eexists. eexists. repeat split; reflexivity.
+  - vm_compute. repeat split; reflexivity.
 Qed.
